@@ -262,6 +262,11 @@ impl LexiconReader {
         self.unresolved > 0
     }
 
+    /// Number of split references which were read in the inline form
+    pub(crate) fn num_unresolved(&self) -> usize {
+        self.unresolved
+    }
+
     pub fn set_max_conn_sizes(&mut self, left: i16, right: i16) {
         self.max_left = left;
         self.max_right = right;
